@@ -795,7 +795,7 @@ def explore(ctx, n_wf, n_hostile, n_alg, exhaustive=False, corpus=(), stream='c0
     def add(c, ls):
         spans.append((c, len(lines), len(ls)))
         lines.extend(ls); cases.append(c)
-    for ops in corpus:
+    for ops in DIRECTED + list(corpus):
         c, ls, d = run_scenario(impl, [tuple(o) for o in ops], True, 'corpus'); decisions += d; add(c, ls)
     for _ in range(n_wf):
         c, ls, d = run_scenario(impl, gen_scenario(r, True), True, 'wf'); decisions += d; add(c, ls)
@@ -820,6 +820,18 @@ def fill_model(cases, lines, spans):
     for c, start, n in spans:
         c.model = '\n'.join(outs[start:start + n])
     return cases
+
+# directed scenarios, run first on every run
+DIRECTED = [
+ # a sender matching two accounts is nobody — and is answered from the channel table the CALLER passed (seeded C03-r4m2):
+ # '#c' carries -topic and defaultAllow False there, the module-global table knows nothing about '#c'
+ [('initial',), ('newuser', 1, 'alice', 0, 0), ('uhost', 1, 'al*!*@*.example'), ('newuser', 2, 'erin', 0, 0), ('uhost', 2, '*!*@*.example'),
+  ('ucap_add', 1, '#c,topic'), ('ccap_add', '#c', '-topic'), ('cdefault', '#c', 0),
+  ('check', 'alice!x@a.example', '#c,topic', (False, False, False)), ('check', 'alice!x@a.example', '#c,-topic', (False, False, False), ('inv', 8)),
+  ('newuser', 3, 'dave', 0, 0), ('uhost', 3, 'zed!*@*'), ('newuser', 4, 'carol', 0, 0), ('uhost', 4, '*!z@z'),
+  ('check', 'zed!z@z', '#c,anything', (False, False, False)), ('check', 'zed!z@z', '#c,op', (False, False, False)),
+  ('checks', 'nobody!n@n', ['#c,topic', '#c,anything'], 0), ('dump',)],
+]
 
 def load_corpus():
     p = os.path.join(os.path.dirname(os.path.dirname(os.path.abspath(__file__))), 'corpus', 'C03', 'scenarios.json')
